@@ -19,7 +19,6 @@
        out by the harness (`mfh prop C19`, TREE channel); they are reported as such in the evidence.
 -/
 import MF.Model.PosLang
-import MF.Proofs.PosLang
 import MF.Gen.Catalog
 import MF.Gen.PosDoc
 import MF.Gen.PosGo
@@ -43,8 +42,5 @@ theorem walk_go_eq_fields :
 theorem all_kinds_covered :
     Gen.posDoc.map (·.1) = Gen.kinds.map (·.name) ∧ Gen.posGo.map (·.1) = Gen.kinds.map (·.name) ∧
     Gen.walkGo.map (·.1) = Gen.kinds.map (·.name) ∧ Gen.walkGoNotes = [] := by decide +kernel
-
-theorem emit_correct (c : Ctx) (e : PosE) (v : Int) (h : (e.emit).eval c = some v) : e.eval c = some v :=
-  PosE.emit_correct c e v h
 
 end MF.Props.C19
